@@ -191,16 +191,29 @@ func main() {
 		if os.Getenv("C11_VERBOSE") != "" {
 			fmt.Fprintf(os.Stderr, "control %s: %+v\n", control[i].Conv, r)
 		}
-		okAll := r.Fail == ""
+		if strings.HasPrefix(r.Fail, "harness") {
+			run.Fatal("%s in control run of %s: %s", r.Fail, control[i].Conv, r.Msg)
+		}
+		if r.Fail != "" {
+			// the oracle fails on the undeviated conversation: a violation, not a harness problem
+			run.Eval(1)
+			run.Violation(sig(control[i], r.Fail), map[string]any{"case": control[i], "msg": r.Msg, "events": r.Events})
+			continue
+		}
+		okAll := len(r.Statuses) > 0
 		for k, s := range r.Statuses {
 			want200 := s == 200 || (s == 101 && control[i].Conv == "websocket") || (control[i].Conv == "auth-describe" && k == 1 && s == 401)
 			if !want200 {
 				okAll = false
 			}
 		}
-		if !okAll || len(r.Statuses) == 0 {
-			run.Fatal("control run of %s fails: %+v", control[i].Conv, r)
+		if !okAll {
+			run.Fatal("control run of %s is not answered with success throughout: %+v", control[i].Conv, r)
 		}
+	}
+	if run.Violations() > 0 {
+		run.Cap("the undeviated conversations already violate the oracle; deviations not enumerated")
+		run.Finish()
 	}
 
 	// ---- enumeration
@@ -312,6 +325,9 @@ func main() {
 			if len(c.Devs) > 0 && fmt.Sprint(r.Statuses, r.ClosedAt, r.Sessions) != controlOutcome[fmt.Sprint(c.Conv, c.Cfg)] {
 				b, _ := json.Marshal(c)
 				run.NontrivialHash(evid.Hash(string(b)))
+			}
+			if strings.HasPrefix(r.Fail, "harness") {
+				run.Fatal("%s in %+v: %s", r.Fail, c, r.Msg)
 			}
 			if r.Fail != "" {
 				s := sig(c, r.Fail)
